@@ -46,16 +46,17 @@ func must(err error, what string) {
 }
 
 type runner struct {
-	root     string
-	rounds   int
-	ctx      context.Context
-	rng      *rand.Rand
-	n        int // running step number
-	app      *sql.DB
-	nextID   int64
-	db       *litestream.DB
-	acked    []uint64 // replica TXIDs acknowledged by upload/syncandwait
-	noInsert bool
+	root      string
+	rounds    int
+	ctx       context.Context
+	rng       *rand.Rand
+	n         int // running step number
+	app       *sql.DB
+	nextID    int64
+	db        *litestream.DB
+	acked     []uint64 // replica TXIDs acknowledged by upload/syncandwait
+	noInsert  bool
+	snapFirst int
 }
 
 func (r *runner) srcPath() string            { return filepath.Join(r.root, "src", "db") }
@@ -723,6 +724,11 @@ func (r *runner) recoverStages(acked uint64, res *recoverLine) *stageError {
 	if len(stale) > 0 {
 		return stageErr("tmp-after-open", fmt.Errorf("staging files survive Open: %v", stale))
 	}
+	if r.snapFirst > 0 {
+		if se := r.snapshotFirst(r.snapFirst - 1); se != nil {
+			return se
+		}
+	}
 	if !r.noInsert {
 		if err := r.insertN(1); err != nil {
 			return stageErr("syncandwait", fmt.Errorf("app insert: %w", err))
@@ -793,6 +799,7 @@ func Main(args []string) int {
 	root := fl.String("root", "", "scenario root directory")
 	phase := fl.String("phase", "run", "run|recover|app")
 	appSpec := fl.String("app", "", "phase app: pre=<n>,mode=<none|PASSIVE|FULL|RESTART|TRUNCATE>,post=<n>,close=<0|1>")
+	snapFirst := fl.Int("snapfirst", 0, "phase recover: n>0 = before any new application write run n-1 idle syncs, then DB.Snapshot, restore and compare")
 	noInsert := fl.Bool("noinsert", false, "phase recover: do not commit an application row before the first sync")
 	acked := fl.Uint64("acked", 0, "phase recover: TXID acknowledged before the kill (0 = none)")
 	seed := fl.Int64("seed", 1, "PRNG seed for row contents")
@@ -818,9 +825,10 @@ func Main(args []string) int {
 	scenarios := map[string]func(){
 		"basic": r.scBasic, "compact": r.scCompact, "restore": r.scRestore,
 		"follow": r.scFollow, "behind": r.scBehind, "reopen": r.scReopen, "restorev3": r.scRestoreV3,
-		"pinned": r.scPinned, "ckptbusy": r.scCkptBusy, "restoreside": r.scRestoreSide,
+		"pinned": r.scPinned, "ckptbusy": r.scCkptBusy, "restoreside": r.scRestoreSide, "republish": r.scRepublish,
 	}
 	r.noInsert = *noInsert
+	r.snapFirst = *snapFirst
 
 	defer func() {
 		if v := recover(); v != nil {
